@@ -175,6 +175,15 @@ def generate(rng, tier):
             kw = {}
             if rng.random() < 0.2:
                 kw["shape"] = (rng.randint(3, 6), rng.randint(3, 6))
+            if rng.random() < 0.3:
+                # a requested region that differs from the bounding box of the projected data (sub-box, dyadic bounds)
+                f_ = PROJS[proj[0]](proj[1])
+                pe_, pn_ = f_(np.array([ge[0], ge[-1]]), np.array([gn[0], gn[-1]]))
+                w_, e_, s_, n_ = float(min(pe_)), float(max(pe_)), float(min(pn_)), float(max(pn_))
+                qw = lambda a, b, t: float(np.round((a + (b - a) * t) * 16) / 16)  # noqa: E731
+                kw["region"] = [qw(w_, e_, 0.25), qw(w_, e_, rng.choice([0.75, 1.0])), qw(s_, n_, rng.choice([0.0, 0.25])), qw(s_, n_, 0.75)]
+            if rng.random() < 0.15 and "shape" not in kw:
+                kw["spacing"] = rng.choice([0.5, 1.0, (2.0, 0.5)])
             cs.append(mk_pg(ge, gn, vals, proj, rng.choice(["linear", "nearest", "cubic"]), rng.random() < 0.5, kw, "project-grid-" + proj[0]))
     return cs
 
@@ -266,8 +275,15 @@ def oracle(case, io):
     pe, pn = f(np.array([c[0] for c in cells]), np.array([c[1] for c in cells]))
     S = list(zip(pe.tolist(), pn.tolist()))
     vmin, vmax = min(c[2] for c in cells), max(c[2] for c in cells)
-    if "shape" not in kw and (len(r["north"]), len(r["east"])) != (len(gn), len(ge)):
+    if "shape" not in kw and "spacing" not in kw and (len(r["north"]), len(r["east"])) != (len(gn), len(ge)):
         return "projected grid does not have the input's shape"
+    if "shape" in kw and (len(r["north"]), len(r["east"])) != tuple(kw["shape"]):
+        return f"projected grid does not have the requested shape {tuple(kw['shape'])}"
+    if "region" in kw:
+        rw, re_, rs, rn = kw["region"]
+        tolr = 1e-9 * max(1.0, *[abs(v) for v in kw["region"]])
+        if abs(r["east"][0] - rw) > tolr or abs(r["east"][-1] - re_) > tolr or abs(r["north"][0] - rs) > tolr or abs(r["north"][-1] - rn) > tolr:
+            return f"projected grid does not span the requested region {kw['region']}"
     for i, y in enumerate(r["north"]):
         for j, x in enumerate(r["east"]):
             v = r["values"][i][j]
@@ -280,7 +296,7 @@ def oracle(case, io):
                 return f"NaN inside the convex hull of the projected data points at ({x}, {y})"
             if v is not None and (antialias or method in ("linear", "nearest")) and not (vmin - 1e-9 <= v <= vmax + 1e-9):
                 return f"value {v} outside the range [{vmin}, {vmax}] of the input"
-    if proj[0] == "affine" and not antialias and "shape" not in kw and all(c is not None for row in vals for c in row):
+    if proj[0] == "affine" and not antialias and not kw and all(c is not None for row in vals for c in row):
         pa = proj[1]
         exp_e = sorted(pa[0] * x + pa[1] for x in ge)
         exp_n = sorted(pa[2] * y + pa[3] for y in gn)
